@@ -9,6 +9,12 @@ use std::rc::Rc;
 
 // ========================================================================= //
 
+// The number of rows in a table cannot exceed 65536, according to this FAQ:
+// http://www.installsite.org/pages/en/msifaq/a/1043.htm
+pub(crate) const MAX_NUM_TABLE_ROWS: usize = 65536;
+
+// ========================================================================= //
+
 /// A database table.
 #[derive(Clone)]
 pub struct Table {
@@ -109,12 +115,11 @@ impl Table {
         let num_columns = self.columns.len();
         let num_rows =
             if row_size > 0 { (data_length / row_size) as usize } else { 0 };
-        // The number of rows cannot exceed 65536, according to this FAQ:
-        // http://www.installsite.org/pages/en/msifaq/a/1043.htm
-        if num_rows > 65536 {
+        if num_rows > MAX_NUM_TABLE_ROWS {
             invalid_data!(
-                "Number of rows is too large ({} > 65536)",
-                num_rows
+                "Number of rows is too large ({} > {})",
+                num_rows,
+                MAX_NUM_TABLE_ROWS
             );
         }
         let mut rows =
